@@ -540,7 +540,7 @@ IDENTITY_CALLS = [
 ]
 
 
-def origins(body, local, max_steps=4000, identity=IDENTITY_CALLS, through_try=True):
+def origins(body, local, max_steps=4000, identity=IDENTITY_CALLS, through_try=True, visited=None):
     """Backward slice from `local` to the calls / args / constants its value derives from.
     Returns list of dicts: {"kind": "call", "t": terminator, "block": b} | {"kind":"arg","local":n}
     | {"kind":"const","c":...} | {"kind":"agg","rv":...} | {"kind":"unknown"}.
@@ -559,6 +559,8 @@ def origins(body, local, max_steps=4000, identity=IDENTITY_CALLS, through_try=Tr
         if l in seen:
             continue
         seen.add(l)
+        if visited is not None:
+            visited.add(l)
         if 1 <= l <= body.raw["arg_count"]:
             out.append({"kind": "arg", "local": l})
             # arguments may also be reassigned; continue to look at defs
